@@ -32,6 +32,19 @@ impl Encoder {
         }
     }
 
+    /// Encode the address without trailing zero octets (RFC 3123 section 4.1).
+    pub(super) fn rr_address_without_trailing_zeros(&mut self, address: &Address) {
+        match address {
+            Address::Ipv4(ipv4_addr) => self.rr_octets_without_trailing_zeros(&ipv4_addr.octets()),
+            Address::Ipv6(ipv6_addr) => self.rr_octets_without_trailing_zeros(&ipv6_addr.octets()),
+        }
+    }
+
+    fn rr_octets_without_trailing_zeros(&mut self, octets: &[u8]) {
+        let length = octets.iter().rposition(|b| *b != 0).map_or(0, |i| i + 1);
+        self.vec(&octets[..length]);
+    }
+
     pub(super) fn rr_address_with_prefix(&mut self, address: &Address, prefix_length: u8) {
         match address {
             Address::Ipv4(ipv4_addr) => self.rr_address_ipv4(ipv4_addr, prefix_length),
